@@ -1,0 +1,19 @@
+//go:build verif
+
+package multiterm
+
+// Contracts for govc (see /verif/DESIGN.md, C14 / C20). Comment-only file.
+
+// A terminal line index is never negative (VirtualTerm indexes a slice with it, TermWriter moves
+// the cursor by it). Renderers must establish this.
+//@ iface rare/pkg/multiterm.MultilineTerm.WriteForLine
+//@   params (this, line, s)
+//@   requires line >= 0
+//@   modifies dyn(this).*
+//@ iface rare/pkg/multiterm.MultilineTerm.WriteForLinef
+//@   params (this, line, format, args)
+//@   requires line >= 0
+//@   modifies dyn(this).*
+//@ iface rare/pkg/multiterm.MultilineTerm.Close
+//@   params (this)
+//@   modifies dyn(this).*
